@@ -99,7 +99,19 @@ func c05SndCase(r *Rng, tier string, idx int) Case {
 	if cl == "idle" && r.Chance(1, 10) {
 		ops = append(ops, c05PickS(r, "adv us=-1", "pkt seq=65536", "adv", "tick"))
 	}
-	return Case{Class: cl, Ops: ops}
+	return Case{Class: cl, Ops: c05Ambient(r, ops)}
+}
+
+// c05Ambient puts the sender interceptor of some cases into a chain with transparent, silent neighbours (the stats
+// interceptor before or after it — it parses the same packets through the shared attribute cache —, the rtpfb
+// interceptor, a NoOp) and lets the transport return nil attributes.
+func c05Ambient(r *Rng, ops []string) []string {
+	if !r.Chance(1, 3) {
+		return ops
+	}
+	before := c05PickS(r, "", "stats", "stats", "noop", "rtpfb,stats")
+	after := c05PickS(r, "", "", "stats", "noop")
+	return append([]string{ambOp(before, after, true, false, r.Chance(1, 3), false)}, ops...)
 }
 
 func c05SndRun(t *testing.T, ops []string, o *Out) {
@@ -124,11 +136,12 @@ func c05SndRun(t *testing.T, ops []string, o *Out) {
 			o.P("err:new")
 			return
 		}
-		ic, err := f.NewInterceptor("")
+		ic0, err := f.NewInterceptor("")
 		if err != nil {
 			o.P("err:new")
 			return
 		}
+		ic := o.Wrap(ic0) // the case's ambient: transparent neighbours / a one-element chain (ambient_test.go)
 		var mu sync.Mutex
 		var batches [][]rtcp.Packet
 		ic.BindRTCPWriter(interceptor.RTCPWriterFunc(func(pkts []rtcp.Packet, _ interceptor.Attributes) (int, error) {
@@ -157,7 +170,7 @@ func c05SndRun(t *testing.T, ops []string, o *Out) {
 			readers[ssrc] = ic.BindRemoteStream(c05StreamInfo(ssrc, tcc),
 				interceptor.RTPReaderFunc(func(b []byte, a interceptor.Attributes) (int, interceptor.Attributes, error) {
 					spend() // a blocking transport: the time until the packet arrives passes inside this Read
-					return copy(b, cur), a, nil
+					return copy(b, cur), o.Bottom(a), nil
 				}))
 		}
 		bind(media, true)
@@ -221,7 +234,7 @@ func c05SndRun(t *testing.T, ops []string, o *Out) {
 					continue
 				}
 				cur = raw
-				if _, _, err := reader.Read(buf, nil); err != nil {
+				if _, _, err := reader.Read(buf, o.Attrs(nil)); err != nil {
 					o.P("err:read")
 				}
 				synctest.Wait()
